@@ -732,6 +732,31 @@ def formatting_case(tier, seed):
       if sorted(map(repr, got)) != sorted(map(repr, base)):
         res["violations"].append(dict(key="formatting", desc="variant parses differently:\n%s\n%r\n!=\n%r" % (v, got, base)))
         break
+  # a custom formula wrapped over several lines, with exprtk end-of-line comments, is the formula written on one line
+  from atsim.potentials.config import Configuration
+  import logging
+  head = "[Tabulation]\ntarget : LAMMPS\n\n[Pair]\nA-B : f 1000.0 0.3 0.5\n\n[Potential-Form]\n"
+  one = head + "f(r, A, rho, D) = A*exp(-r/rho) + D*(exp(-2*(r-2)) - 2*exp(-(r-2)))\n"
+  wrapped = [head + "f(r, A, rho, D) = A*exp(-r/rho)   // repulsion\n      + D*(exp(-2*(r-2))          # first Morse term\n      - 2*exp(-(r-2)))\n",
+             head + "f(r, A, rho, D) =\n   A*exp(-r/rho)\n   + D*(exp(-2*(r-2)) - 2*exp(-(r-2)))   // Morse\n",
+             head + "f(r, A, rho, D) : A*exp(-r/rho) // repulsion\n\t+ D*(exp(-2*(r-2)) - 2*exp(-(r-2)))\n"]
+  logging.disable(logging.CRITICAL)
+  try:
+    ref = Configuration().read(io.StringIO(one)).potentials[0]
+    want = [ref.energy(r) for r in (1.0, 2.0, 3.1, 4.5)]
+    for w_ in wrapped:
+      n += 1
+      try:
+        p_ = Configuration().read(io.StringIO(w_)).potentials[0]
+        got = [p_.energy(r) for r in (1.0, 2.0, 3.1, 4.5)]
+      except Exception as e:  # noqa
+        got = "%s: %s" % (type(e).__name__, e)
+      if got != want:
+        res["violations"].append(dict(key="formatting-wrapped-formula", desc="the wrapped formula\n%s\nevaluates to %r, written on one line to %r" % (w_[w_.index("[Potential-Form]"):], got, want),
+                                      record=dict(kind="wrapped", model=w_)))
+        break
+  finally:
+    logging.disable(logging.NOTSET)
   res["paths"] += n
   res["replays"] += n
   return res
